@@ -3,7 +3,7 @@
    syntax.  [to_node] is tied to the real parser by the C01 harness (the AST parse.go builds
    from the generated source text is compared with it, positions and the quoted source of
    string literals erased).  Definitions only. *)
-From Soy Require Import Model.Bytes Model.Num Model.Values Model.Outcome Model.Ast Model.Interp Spec.Expr.
+From Soy Require Import Model.Bytes Model.Num Model.Values Model.Outcome Model.Ast Model.AstPrint Model.Interp Spec.Expr.
 Open Scope N_scope.
 
 Definition binop_of (op : bop) : binop :=
@@ -22,7 +22,7 @@ Fixpoint to_node (e : expr) : node :=
   | EBool x => NBool 0 x
   | EInt z => NInt 0 z
   | EFloat f => NFloat 0 f
-  | EStr s => NString 0 [] s
+  | EStr s => NString 0 (quote_key s) s         (* the quoted source text: the walker never looks at it *)
   | EList es => NListLit 0 (map to_node es)
   | EMap kvs => NMapLit 0 (map (fun kv => (fst kv, to_node (snd kv))) kvs)
   | EGlobal name => NGlobal 0 name (match assoc_s name G with Some v => v | None => VUndef end)
@@ -42,6 +42,23 @@ with acc_node (a : access) : node :=
   | AExpr ns e => NAccExpr 0 ns (to_node e)
   end.
 End Trans.
+
+(* parsepasses.SetNodeGlobals on expression nodes: every global node receives its value.
+   The parser builds to_node [] e (globals unresolved); the compiled tree is to_node G e. *)
+Fixpoint set_globals (G : list (bstr * value)) (n : node) : node :=
+  match n with
+  | NGlobal p name _ => NGlobal p name (match assoc_s name G with Some v => v | None => VUndef end)
+  | NFunc p name args => NFunc p name (map (set_globals G) args)
+  | NListLit p items => NListLit p (map (set_globals G) items)
+  | NMapLit p items => NMapLit p (map (fun kv => (fst kv, set_globals G (snd kv))) items)
+  | NDataRef p key acc => NDataRef p key (map (set_globals G) acc)
+  | NAccExpr p ns a => NAccExpr p ns (set_globals G a)
+  | NNot p a => NNot p (set_globals G a)
+  | NNeg p a => NNeg p (set_globals G a)
+  | NBin op p a c => NBin op p (set_globals G a) (set_globals G c)
+  | NTern p c a d => NTern p (set_globals G c) (set_globals G a) (set_globals G d)
+  | other => other
+  end.
 
 (* nesting depth: the recursion budget the tree walker needs *)
 Definition max_list (l : list nat) : nat := fold_right Nat.max 0%nat l.
